@@ -62,6 +62,7 @@ type Runner struct {
 	created map[string]cfgArgs // per index: arguments of its latest successful VCreate
 	Minted  map[string]string  // model id -> engine-minted id (VEvolve)
 	LastErr string             // error text of the last failed call
+	gen     map[string]int     // per index name: how many times it was created (the vector dimension alternates with it)
 	// Raw, when non-nil, is refilled by every Observe with the exact vectors VGet returned ("index/id" -> copy)
 	Raw map[string][]float32
 	// ExtraHook, when set, receives every verif hook event raised while an operation runs
@@ -96,6 +97,10 @@ func (r *Runner) CloneAt(dir string) (*Runner, error) {
 	}
 	for k, v := range r.Minted {
 		c.Minted[k] = v
+	}
+	c.gen = map[string]int{}
+	for k, v := range r.gen {
+		c.gen[k] = v
 	}
 	c.opIntervals = append(c.opIntervals, r.opIntervals...)
 	if err := c.open(); err != nil {
@@ -142,13 +147,26 @@ func (r *Runner) Close() {
 
 // ---------------------------------------------------------------- refinement
 
-func (r *Runner) vec(tok string) []float32 {
+// dimOf: the vector dimension used for index n. The specification says nothing about dimensions, so the refinement
+// varies it: every second creation of a name uses vectors two components longer (an index dropped and created again
+// need not have the dimension of its predecessor -- the image of the old one may still be on disk).
+func (r *Runner) dimOf(n string) int {
 	d := r.P.Dim
 	if d <= 0 {
 		d = 3
 	}
+	if g := r.gen[n]; g > 0 && g%2 == 0 {
+		d += 2
+	}
+	return d
+}
+
+func (r *Runner) vec(tok string) []float32 { return r.vecFor("", tok) }
+
+func (r *Runner) vecFor(n, tok string) []float32 {
+	d := r.dimOf(n)
 	if tok == "vbad" {
-		d += 2 // wrong dimension
+		d++ // wrong dimension
 	}
 	v := make([]float32, d)
 	var base []float32
@@ -189,6 +207,17 @@ func (r *Runner) vecToken(got []float32, metric, prec string) string {
 	best, bestD := "?", math.Inf(1)
 	for _, tok := range []string{"v1", "v2", "v3"} {
 		want := r.vec(tok)
+		if len(want) != len(got) {
+			want = make([]float32, 0)
+			for _, extra := range []int{2} {
+				save := r.P.Dim
+				r.P.Dim = r.dimOf("") + extra
+				if w2 := r.vec(tok); len(w2) == len(got) {
+					want = w2
+				}
+				r.P.Dim = save
+			}
+		}
 		cmp := got
 		if metric == "cosine" && prec == "float32" {
 			want = normalize(want)
@@ -593,6 +622,10 @@ func (r *Runner) exec(op map[string]any) (string, error) {
 		err = e.VCreate(str(op, "n"), c.metric, c.m, c.efc, c.prec, c.lang, mc, alOf(optStr(op, "al")), c.mem)
 		if err == nil {
 			r.created[str(op, "n")] = c
+			if r.gen == nil {
+				r.gen = map[string]int{}
+			}
+			r.gen[str(op, "n")]++
 		}
 		return res(err)
 	case "VDeleteIndex":
@@ -611,26 +644,26 @@ func (r *Runner) exec(op map[string]any) (string, error) {
 		return res(err)
 	case "VAdd":
 		um, _ := op["meta"].(map[string]any)
-		return res(e.VAdd(str(op, "n"), r.id(str(op, "id")), r.vec(str(op, "vec")), r.meta(um)))
+		return res(e.VAdd(str(op, "n"), r.id(str(op, "id")), r.vecFor(str(op, "n"), str(op, "vec")), r.meta(um)))
 	case "VAddBatch":
 		um, _ := op["meta"].(map[string]any)
 		items := []types.BatchObject{
-			{Id: r.id(str(op, "id1")), Vector: r.vec(str(op, "v1")), Metadata: r.meta(um)},
-			{Id: r.id(str(op, "id2")), Vector: r.vec(str(op, "v2")), Metadata: r.meta(um)},
+			{Id: r.id(str(op, "id1")), Vector: r.vecFor(str(op, "n"), str(op, "v1")), Metadata: r.meta(um)},
+			{Id: r.id(str(op, "id2")), Vector: r.vecFor(str(op, "n"), str(op, "v2")), Metadata: r.meta(um)},
 		}
 		return res(e.VAddBatch(str(op, "n"), items))
 	case "VImport":
 		um, _ := op["meta"].(map[string]any)
 		items := []types.BatchObject{
-			{Id: r.id(str(op, "id1")), Vector: r.vec(str(op, "v1")), Metadata: r.meta(um)},
-			{Id: r.id(str(op, "id2")), Vector: r.vec(str(op, "v2")), Metadata: r.meta(um)},
+			{Id: r.id(str(op, "id1")), Vector: r.vecFor(str(op, "n"), str(op, "v1")), Metadata: r.meta(um)},
+			{Id: r.id(str(op, "id2")), Vector: r.vecFor(str(op, "n"), str(op, "v2")), Metadata: r.meta(um)},
 		}
 		return res(e.VImport(str(op, "n"), items))
 	case "VImportCommit":
 		return res(e.VImportCommit(str(op, "n")))
 	case "VEvolve":
 		um, _ := op["meta"].(map[string]any)
-		newID, err := e.VEvolve(str(op, "n"), r.id(str(op, "old")), r.vec(str(op, "vec")), r.meta(um), "evolve-reason")
+		newID, err := e.VEvolve(str(op, "n"), r.id(str(op, "old")), r.vecFor(str(op, "n"), str(op, "vec")), r.meta(um), "evolve-reason")
 		if err == nil {
 			r.Minted[str(op, "new")] = newID
 		}
